@@ -16,7 +16,7 @@
      statement is kept in the comment above them. *)
 From Coq Require Import List ZArith Bool Arith Lia.
 From SC Require Import Base.Res Base.PyList Inst.Heap Inst.ClassTable Inst.Model Inst.Canon
-  Inst.Abs Inst.SpecHelpers Inst.RefineProofs Inst.CopyProofs Inst.CopyStore Inst.RefineMore Inst.RefineMore2.
+  Inst.Abs Inst.SpecHelpers Inst.RefineProofs Inst.CopyProofs Inst.CopyStore Inst.RefineMore Inst.RefineMore2 Inst.RefineMore3.
 Import ListNotations.
 Open Scope nat_scope.
 
@@ -530,6 +530,77 @@ Proof.
   vm_compute. repeat split.
 Qed.
 
+(* ---------------- invalidation (Inst/RefineMore3.v) ---------------- *)
+(* The "no invalidated_by" guard of C05_refines_partial / C05_setattr_refines_partial lifted:
+   `inval_flat k a` -- attribute names are unique, the attributes invalidated by `a` are
+   DIRECT dependants (they invalidate nothing themselves, `a` is not among them) and each of
+   them is covered by `dep_ok` (non-collection type, pool preparer, literal default that is a
+   proper scalar or absent).  Then with_<a>(v, _inplace=True) and obj.a = v store the prepared
+   value and reset every dependant once, in declaration order, to its PREPARED default (or
+   remove it) -- the abstraction of the final receiver is exactly the specification's
+   store-then-invalidate; an error (from the preparer of `a`, the type check, or the reset of
+   a dependant) has the specification's class; only the receiver's cell is written.  (The
+   Err case no longer says "heap untouched": a dependant's reset may fail after `a` was
+   written -- the specification only names the class.)  STILL MISSING: chains of
+   invalidation and '*' dependants, dependants with factories / mutable defaults. *)
+Theorem C05_refines_inval_partial : forall ct h0 l a c d k sp s v,
+  nth_error (heap s) l = Some (OInst c d) -> lookup_cls ct c = Some k -> lookup_attr k a = Some sp ->
+  NoDup (map fst d) -> aok (absv (heap s) (VRef l)) = true ->
+  c_frozen k = false -> inval_flat k a -> fail_at s = None ->
+  ty_depth (a_ty sp) < FUEL -> ty_is_collection (a_ty sp) = false ->
+  match a_prepare sp with Some f => scalar_fn f = true | None => True end ->
+  vscalar v = true ->
+  let h := mkh [v] true true VMissing false None None [] None in
+  let ah := mkah [abs0 v] true true AMissing false None None [] None in
+  match run_helper ct l (HWith a) h s with
+  | (Ok r, s') => r = VRef l /\
+                  spec_helper ct h0 (absv (heap s) (VRef l)) (SWith a) ah = SOk (absv (heap s') (VRef l)) /\
+                  (forall i, i <> l -> nth_error (heap s') i = nth_error (heap s) i)
+  | (Err e, s') => spec_helper ct h0 (absv (heap s) (VRef l)) (SWith a) ah = SErr e /\
+                   (forall i, i <> l -> nth_error (heap s') i = nth_error (heap s) i)
+  end.
+Proof.
+  intros ct h0 l a c d k sp s v Hl Hc Ha Hd Hok Hfz Hflat Hfa Hty Hnc Hp Hv.
+  exact (with_scalar_inplace_inval_refines ct h0 l a c d k sp s Hl Hc Ha Hd Hok Hfz Hflat Hfa Hty Hnc Hp v Hv).
+Qed.
+
+Theorem C05_setattr_refines_inval_partial : forall ct h0 l a c d k sp s roots x v,
+  nth_error (heap s) l = Some (OInst c d) -> lookup_cls ct c = Some k -> lookup_attr k a = Some sp ->
+  NoDup (map fst d) -> aok (absv (heap s) (VRef l)) = true ->
+  c_frozen k = false -> inval_flat k a -> fail_at s = None ->
+  ty_depth (a_ty sp) < FUEL -> ty_is_collection (a_ty sp) = false ->
+  match a_prepare sp with Some f => scalar_fn f = true | None => True end ->
+  nth x roots VNone = VRef l -> vscalar v = true ->
+  let ah := mkah [abs0 v] true true AMissing false None None [] None in
+  match step ct roots (OpSetAttr x a v) s with
+  | (Ok r, s') => spec_helper ct h0 (absv (heap s) (VRef l)) (SSetAttrOp a) ah = SOk (absv (heap s') (VRef l)) /\
+                  (forall i, i <> l -> nth_error (heap s') i = nth_error (heap s) i)
+  | (Err e, s') => spec_helper ct h0 (absv (heap s) (VRef l)) (SSetAttrOp a) ah = SErr e /\
+                   (forall i, i <> l -> nth_error (heap s') i = nth_error (heap s) i)
+  end.
+Proof.
+  intros ct h0 l a c d k sp s roots x v Hl Hc Ha Hd Hok Hfz Hflat Hfa Hty Hnc Hp Hx Hv.
+  exact (setattr_scalar_inval_refines ct h0 l a c d k sp s Hl Hc Ha Hd Hok Hfz Hflat Hfa Hty Hnc Hp roots x v Hx Hv).
+Qed.
+
+(* non-vacuity: the class of C05_examples (a3 is invalidated by a1) meets inval_flat for a1 *)
+Definition ex_k : cls := nth 0 ex_ct (mkcls 0 [] false false None [] 0 [] None None).
+Example C05_example_inval :
+  lookup_cls ex_ct 2 = Some ex_k /\ inval_flat ex_k 1 /\ dependants ex_k 1 = [3] /\
+  (let '(r, s') := run_helper ex_ct 0 (HWith 1) (mkh [VInt 5] true true VMissing false None None [] None) ex_state in
+   r = Ok (VRef 0) /\ nth_error (heap s') 0 = Some (OInst 2 [(1, VInt 6); (3, VNone)])) /\
+  spec_helper ex_ct [] (absv (heap ex_state) (VRef 0)) (SWith 1)
+              (mkah [AInt 5] true true AMissing false None None [] None)
+    = SOk (AInst 2 [(1, AInt 6); (3, ANone)]).
+Proof.
+  split; [reflexivity|]. split.
+  { split; [vm_compute; repeat constructor; simpl; intuition discriminate|].
+    split; [vm_compute; intuition discriminate|]. split.
+    - intros b Hb. vm_compute in Hb. destruct Hb as [<-|[]]. reflexivity.
+    - intros sp [<-|[<-|[]]] Hdep; [discriminate Hdep|vm_compute; reflexivity]. }
+  vm_compute. repeat split.
+Qed.
+
 Print Assumptions C05_noop_if_false.
 Print Assumptions C05_noop_with_unchanged.
 Print Assumptions C05_noop_update_unchanged.
@@ -559,3 +630,6 @@ Print Assumptions C05_transform_copy_err_partial.
 Print Assumptions C05_reset_copy_refines_partial.
 Print Assumptions C05_update_top_copy_refines_partial.
 Print Assumptions C05_example_copy.
+Print Assumptions C05_refines_inval_partial.
+Print Assumptions C05_setattr_refines_inval_partial.
+Print Assumptions C05_example_inval.
